@@ -69,7 +69,9 @@ def tree_reaches_note(text: str) -> bool:
     from zorg.grammar.zorg_file.ZorgFileLexer import ZorgFileLexer
     from zorg.grammar.zorg_file.ZorgFileParser import ZorgFileParser
 
-    lx = ZorgFileLexer(antlr4.InputStream(text))
+    # walk_zorg_page reads the file as ASCII and drops undecodable bytes
+    ascii_text = text.encode("utf-8", "surrogateescape").decode("ascii", "ignore")
+    lx = ZorgFileLexer(antlr4.InputStream(ascii_text))
     lx.removeErrorListeners()
     ps = ZorgFileParser(antlr4.CommonTokenStream(lx))
     ps.removeErrorListeners()
@@ -105,7 +107,7 @@ def judge(text: str) -> tuple[dict, str | None, dict | None]:
     if n == 0 and r["has_errors"]:
         return obs, "flagged-without-parser-syntax-error", {}
     if n == 0:
-        has_lex_noise = any(ord(c) > 126 or c in "\t\x00" for c in text)
+        has_lex_noise = any(ord(c) > 126 or c in "\t\x00" for c in text) or "\r" in text.replace("\r\n", "")
         want = expected_note_count(text)
         if not has_lex_noise and want != len(r["notes"]):
             return obs, "accepted-page-note-count", {"expected_items": want, "observed_notes": len(r["notes"])}
